@@ -8,7 +8,7 @@ COMMON_ASSUME = [
 PROPS = {
     "C10": {
         "level": "fault_enumeration",
-        "runs": {"quick": 12000, "thorough": 500000},
+        "runs": {"quick": 40000, "thorough": 500000},
         "selftest_runs": 6000,
         "needs_real": False,
         "rule": (
@@ -28,7 +28,7 @@ PROPS = {
     },
     "C06": {
         "level": "exploration",
-        "runs": {"quick": 400, "thorough": 30000},
+        "runs": {"quick": 600, "thorough": 30000},
         "selftest_runs": 300,
         "needs_real": True,
         "rule": (
@@ -47,7 +47,7 @@ PROPS = {
     },
     "C15": {
         "level": "exploration",
-        "runs": {"quick": 4000, "thorough": 400000},
+        "runs": {"quick": 10000, "thorough": 400000},
         "selftest_runs": 1500,
         "needs_real": True,
         "validate_runs": {"quick": 48, "thorough": 400},
@@ -72,7 +72,7 @@ PROPS = {
     },
     "C17": {
         "level": "exploration",
-        "runs": {"quick": 1500, "thorough": 100000},
+        "runs": {"quick": 3000, "thorough": 100000},
         "selftest_runs": 600,
         "needs_real": True,
         "validate_runs": {"quick": 16, "thorough": 120},
@@ -93,7 +93,7 @@ PROPS = {
     },
     "C18": {
         "level": "exploration",
-        "runs": {"quick": 1500, "thorough": 100000},
+        "runs": {"quick": 2500, "thorough": 100000},
         "selftest_runs": 600,
         "needs_real": True,
         "validate_runs": {"quick": 16, "thorough": 120},
@@ -113,7 +113,7 @@ PROPS = {
     },
     "C13": {
         "level": "fault_enumeration",
-        "runs": {"quick": 600, "thorough": 60000},
+        "runs": {"quick": 1000, "thorough": 60000},
         "selftest_runs": 300,
         "needs_real": True,
         "rule": (
